@@ -245,7 +245,65 @@ fn ref_nonce(seed: &Scalar, label: &str, j: Option<usize>, k: Option<usize>) -> 
     Scalar::from_bytes_mod_order_wide(&wide)
 }
 
-/// returns the proof bytes in the released wire layout
+/// where the reference prover takes its nonces from
+pub trait NonceSource {
+    /// the prover's transcript reached a point where the library rebuilds its RNG (after the statement, after A, after each (L, R))
+    fn stage(&mut self, t: &Transcript);
+    /// nonce `name` (alpha_k, dL_j_k, dR_j_k, r, s, d_k, eta_k); `seeded` = Some((label, j, k)) for the ones the documented derivation takes from the seed
+    fn draw(&mut self, name: &str, seeded: Option<(&str, Option<usize>, usize)>) -> Scalar;
+}
+
+/// the caller's RNG directly (interoperability tests: any nonces give an acceptable proof)
+pub struct DirectSource<'a, R: rand_core::RngCore> {
+    pub rng: &'a mut R,
+    pub seed: Option<Scalar>,
+}
+impl<'a, R: rand_core::RngCore> NonceSource for DirectSource<'a, R> {
+    fn stage(&mut self, _t: &Transcript) {}
+    fn draw(&mut self, _name: &str, seeded: Option<(&str, Option<usize>, usize)>) -> Scalar {
+        match (self.seed, seeded) {
+            (Some(s), Some((label, j, k))) => ref_nonce(&s, label, j, Some(k)),
+            _ => nonzero(self.rng),
+        }
+    }
+}
+
+/// the DOCUMENTED derivation (C13 / C14 / C19): every RNG nonce is the next non-zero output of
+/// transcript.build_rng().rekey_with_witness_bytes("witness", LE64(v_j) | r_j,0.. for every opening).finalize(external RNG), rebuilt at every stage;
+/// with a seed, alpha / dL / dR / d / eta are the Blake2b nonces. `alias`: (name, other name) pairs — `name` takes the VALUE drawn for `other name`
+/// instead of a draw of its own (used to replay "these two nonces are one and the same" findings).
+pub struct DocumentedSource {
+    pub witness_bytes: Vec<u8>,
+    pub ext: u8,
+    pub seed: Option<Scalar>,
+    pub rng: Option<merlin::TranscriptRng>,
+    pub drawn: Vec<(String, Scalar)>,
+    pub alias: Vec<(String, String)>,
+}
+impl NonceSource for DocumentedSource {
+    fn stage(&mut self, t: &Transcript) {
+        self.rng = Some(t.build_rng().rekey_with_witness_bytes(b"witness", &self.witness_bytes).finalize(&mut StuckRng(self.ext)));
+    }
+    fn draw(&mut self, name: &str, seeded: Option<(&str, Option<usize>, usize)>) -> Scalar {
+        let v = match (self.seed, seeded) {
+            (Some(s), Some((label, j, k))) => ref_nonce(&s, label, j, Some(k)),
+            _ => {
+                if let Some((_, other)) = self.alias.iter().find(|(n, _)| n == name) {
+                    if let Some((_, v)) = self.drawn.iter().find(|(n, _)| n == other) {
+                        let v = *v;
+                        self.drawn.push((name.to_string(), v));
+                        return v;
+                    }
+                }
+                nonzero(self.rng.as_mut().expect("stage() before draw()"))
+            },
+        };
+        self.drawn.push((name.to_string(), v));
+        v
+    }
+}
+
+/// returns the proof bytes in the released wire layout (nonces from the caller's RNG / the documented seed nonces)
 pub fn reference_prove<R: rand_core::RngCore + rand_core::CryptoRng>(
     transcript: &Transcript,
     st: &RangeStatement<RistrettoPoint>,
@@ -253,27 +311,41 @@ pub fn reference_prove<R: rand_core::RngCore + rand_core::CryptoRng>(
     blindings: &[Vec<Scalar>],
     rng: &mut R,
 ) -> Option<Vec<u8>> {
+    let mut src = DirectSource { rng, seed: st.seed_nonce };
+    reference_prove_with(transcript, st, values, blindings, &mut src)
+}
+
+/// the proof the DOCUMENTED derivation produces for this witness when the external RNG is stuck at `ext` (byte-for-byte what the library must output)
+pub fn reference_prove_documented(
+    transcript: &Transcript,
+    st: &RangeStatement<RistrettoPoint>,
+    values: &[u64],
+    blindings: &[Vec<Scalar>],
+    ext: u8,
+    alias: &[(String, String)],
+) -> Option<Vec<u8>> {
+    let mut wb = Vec::new();
+    for (v, r) in values.iter().zip(blindings.iter()) {
+        wb.extend_from_slice(&v.to_le_bytes());
+        for s in r {
+            wb.extend_from_slice(s.as_bytes());
+        }
+    }
+    let mut src = DocumentedSource { witness_bytes: wb, ext, seed: st.seed_nonce, rng: None, drawn: Vec::new(), alias: alias.to_vec() };
+    reference_prove_with(transcript, st, values, blindings, &mut src)
+}
+
+pub fn reference_prove_with(
+    transcript: &Transcript,
+    st: &RangeStatement<RistrettoPoint>,
+    values: &[u64],
+    blindings: &[Vec<Scalar>],
+    src: &mut dyn NonceSource,
+) -> Option<Vec<u8>> {
     let n = st.generators.bit_length();
     let m = st.commitments.len();
     let x = st.generators.extension_degree() as usize;
     let nm = n * m;
-    let seed = st.seed_nonce;
-    fn draw<R2: rand_core::RngCore>(rng: &mut R2) -> Scalar {
-        loop {
-            let mut b = [0u8; 64];
-            rng.fill_bytes(&mut b);
-            let v = Scalar::from_bytes_mod_order_wide(&b);
-            if v != Scalar::ZERO {
-                break v;
-            }
-        }
-    }
-    let fresh = |rng: &mut R, label: &str, j: Option<usize>, k: usize| -> Scalar {
-        match seed {
-            Some(s) => ref_nonce(&s, label, j, Some(k)),
-            None => draw(rng),
-        }
-    };
     let gs: Vec<RistrettoPoint> = st.generators.gi_base_iter().take(nm).cloned().collect();
     let hs: Vec<RistrettoPoint> = st.generators.hi_base_iter().take(nm).cloned().collect();
     let h = *st.generators.h_base();
@@ -292,15 +364,7 @@ pub fn reference_prove<R: rand_core::RngCore + rand_core::CryptoRng>(
             a_r.push(Scalar::from(bit) - Scalar::ONE);
         }
     }
-    let mut alpha: Vec<Scalar> = (0..x).map(|k| fresh(rng, "alpha", None, k)).collect();
-    let mut a_pt = RistrettoPoint::identity();
-    for i in 0..nm {
-        a_pt += gs[i] * a_l[i] + hs[i] * a_r[i];
-    }
-    for k in 0..x {
-        a_pt += gb[k] * alpha[k];
-    }
-    // Fiat-Shamir
+    // Fiat-Shamir transcript up to the statement (the library builds its first RNG here)
     let mut t = transcript.clone();
     t.append_message(b"dom-sep", b"Bulletproofs+ Range Proof");
     t.append_message(b"H", h.compress().as_bytes());
@@ -316,7 +380,17 @@ pub fn reference_prove<R: rand_core::RngCore + rand_core::CryptoRng>(
     for p in &st.minimum_value_promises {
         t.append_u64(b"vi - minimum_value", p.unwrap_or(0));
     }
+    src.stage(&t);
+    let mut alpha: Vec<Scalar> = (0..x).map(|k| src.draw(&format!("alpha_{}", k), Some(("alpha", None, k)))).collect();
+    let mut a_pt = RistrettoPoint::identity();
+    for i in 0..nm {
+        a_pt += gs[i] * a_l[i] + hs[i] * a_r[i];
+    }
+    for k in 0..x {
+        a_pt += gb[k] * alpha[k];
+    }
     t.append_message(b"A", a_pt.compress().as_bytes());
+    src.stage(&t);
     let y = challenge(&mut t, b"y")?;
     let z = challenge(&mut t, b"z")?;
     let z2 = z * z;
@@ -357,8 +431,8 @@ pub fn reference_prove<R: rand_core::RngCore + rand_core::CryptoRng>(
             c_l += a_lo[i] * pow(&y, i + 1) * b_hi[i];
             c_r += a_hi[i] * pow(&y, len + i + 1) * b_lo[i];
         }
-        let d_l: Vec<Scalar> = (0..x).map(|k| fresh(rng, "dL", Some(round), k)).collect();
-        let d_r: Vec<Scalar> = (0..x).map(|k| fresh(rng, "dR", Some(round), k)).collect();
+        let d_l: Vec<Scalar> = (0..x).map(|k| src.draw(&format!("dL_{}_{}", round, k), Some(("dL", Some(round), k)))).collect();
+        let d_r: Vec<Scalar> = (0..x).map(|k| src.draw(&format!("dR_{}_{}", round, k), Some(("dR", Some(round), k)))).collect();
         let mut l_pt = h * c_l;
         let mut r_pt = h * c_r;
         for i in 0..len {
@@ -371,6 +445,7 @@ pub fn reference_prove<R: rand_core::RngCore + rand_core::CryptoRng>(
         }
         t.append_message(b"L", l_pt.compress().as_bytes());
         t.append_message(b"R", r_pt.compress().as_bytes());
+        src.stage(&t);
         let e = challenge(&mut t, b"e")?;
         let ei = e.invert();
         let g_new: Vec<RistrettoPoint> = (0..len).map(|i| g_lo[i] * ei + g_hi[i] * (e * y_len_inv)).collect();
@@ -388,10 +463,10 @@ pub fn reference_prove<R: rand_core::RngCore + rand_core::CryptoRng>(
         b = b_new;
         round += 1;
     }
-    let r = draw(rng);
-    let s = draw(rng);
-    let d: Vec<Scalar> = (0..x).map(|k| fresh(rng, "d", None, k)).collect();
-    let eta: Vec<Scalar> = (0..x).map(|k| fresh(rng, "eta", None, k)).collect();
+    let r = src.draw("r", None);
+    let s = src.draw("s", None);
+    let d: Vec<Scalar> = (0..x).map(|k| src.draw(&format!("d_{}", k), Some(("d", None, k)))).collect();
+    let eta: Vec<Scalar> = (0..x).map(|k| src.draw(&format!("eta_{}", k), Some(("eta", None, k)))).collect();
     let mut a1 = g_cur[0] * r + h_cur[0] * s + h * (r * y * b[0] + s * y * a[0]);
     let mut b_pt = h * (r * y * s);
     for k in 0..x {
